@@ -137,7 +137,7 @@ func init() {
 				defer func() { a.runtime.context = c }()
 				a.runtime.context = a.Get(1)
 			}
-			result = a.runtime.executeList(root)
+			result = returned(a.runtime.executeList(root))
 
 			return result
 		})),
